@@ -153,4 +153,70 @@ theorem emitted_function_keeps_signature (c : InCode) (pfs : List ParsedFunc) (o
     exact this.2
   · cases hfe
 
+/-- a type index of the input, sent through type de-duplication (`dedupIds`) and the sorted type
+    section (`tyMap`), names the same signature in the output's type section -/
+theorem type_index_keeps_signature (sigs : List Sig) (t t' : Nat)
+    (h : ((dedupIds sigs)[t]?).bind (assoc ((sortBy (fun a b => sigLe a.2 b.2)
+          ((distinctSigs sigs).zipIdx.map fun p => (p.2, p.1))).zipIdx.map (fun p => (p.1.1, p.2)))) = some t') :
+    ∃ sg, sigs[t]? = some sg ∧
+      ((sortBy (fun a b => sigLe a.2 b.2) ((distinctSigs sigs).zipIdx.map fun p => (p.2, p.1))).map (·.2))[t']? = some sg := by
+  have hti : t < sigs.length := by
+    rcases Nat.lt_or_ge t sigs.length with h1 | h1
+    · exact h1
+    · simp [dedupIds, h1] at h
+  obtain ⟨id, hid2, hds⟩ := C19.type_index_denotes_its_signature sigs t sigs[t] (by simp [hti])
+  rw [hid2] at h
+  simp only [Option.bind_some] at h
+  refine ⟨sigs[t], by simp [hti], ?_⟩
+  obtain ⟨_, hpos⟩ := assoc_zipIdx_pos (fun q : Nat × Sig => q.1) _ 0 id t' h
+  simp only [Nat.sub_zero, Option.map_eq_some_iff] at hpos
+  obtain ⟨e, he1, he2⟩ := hpos
+  have hem := List.mem_of_getElem? he1
+  rw [mem_sortBy, List.mem_map] at hem
+  obtain ⟨r, hr, hre⟩ := hem
+  have hz := List.mem_zipIdx hr
+  obtain ⟨e1, e2⟩ := e
+  simp only [Prod.mk.injEq] at hre
+  obtain ⟨hr2, hr1⟩ := hre
+  simp only at he2
+  rw [List.getElem?_map, he1]
+  simp only [Option.map_some, Option.some.injEq]
+  have h3 := hz.2.2
+  simp only [Nat.sub_zero] at h3
+  rw [← hr1, h3]
+  have : (distinctSigs sigs)[r.2]? = some sigs[t] := by
+    rw [hr2, he2]; exact hds
+  rw [List.getElem?_eq_some_iff] at this
+  exact this.2
+
+/-- **every function import keeps its signature**: the `k`-th import of the output, when the input's
+    `k`-th import is a function of type index `t`, is a function whose type index names, in the
+    output's type section, the signature `t` named in the input's -/
+theorem roundTrip_import_sigs (m o : ModuleM) (h : roundTripModule m = some o) :
+    ∀ (k : Nat) (a b : String) (t : Nat), m.imports[k]? = some (a, b, .func t) →
+      ∃ t' sg, o.imports[k]? = some (a, b, .func t') ∧ m.sigs[t]? = some sg ∧ o.sigs[t']? = some sg := by
+  unfold roundTripModule at h
+  simp only at h
+  split at h
+  · cases h
+  · split at h
+    · cases h
+    · rename_i pfs hpfs
+      split at h
+      · cases h
+      · rename_i oc hoc
+        split at h
+        · rename_i im gl ex st el da him hgl hex hst hel hda
+          simp only [Option.some.injEq] at h
+          subst h
+          intro k a b t hk
+          obtain ⟨j, hj, hf⟩ := mapM_some_get _ _ _ him k _ hk
+          simp only [Option.map_eq_some_iff] at hf
+          obtain ⟨t', ht', rfl⟩ := hf
+          have hsigs := emitCode_sigs _ pfs oc hoc
+          simp only at hsigs
+          obtain ⟨sg, h1, h2⟩ := type_index_keeps_signature m.sigs t t' ht'
+          exact ⟨t', sg, hj, h1, by rw [hsigs]; exact h2⟩
+        · cases h
+
 end Walrus
